@@ -124,8 +124,35 @@ SB_OP(stats)
     sb_error_t rcb = sb_trajectory_init_from_binary_file_in_memory(&tb, buf.p, buf.n);
     add(out, std::to_string((int)rca) + "," + std::to_string((int)rcb));
     if (rca == SB_SUCCESS && rcb == SB_SUCCESS) {
+        // the same trajectory OBJECT held another show a moment ago and was asked the very same question (a drone that gets a
+        // new show uploaded): an answer is a function of the trajectory as it is now, not of the object's address
+        static const std::vector<uint8_t> decoy = unhex("736b7962020144aa3223011b0001000000000000000000d00710b80b881301e8032c0110a00f0000");
+        ExactBuf dbuf(decoy);
         for (size_t i = 3; i < t.size(); i++) {
-            std::string A = answer(&ta, t[i]);
+            // (one object at a time: decoy, then the show, in the same object, with nothing asked in between)
+            sb_trajectory_destroy(&ta);
+            memset(&ta, SBH_FILL, sizeof(ta));
+            if (sb_trajectory_init_from_binary_file_in_memory(&ta, dbuf.p, dbuf.n) == SB_SUCCESS) {
+                (void)answer(&ta, t[i]);
+                sb_trajectory_destroy(&ta);
+            }
+            memset(&ta, SBH_FILL, sizeof(ta));
+            fd = make_fd(v);
+            rca = sb_trajectory_init_from_binary_file(&ta, fd);
+            close(fd);
+            std::string A = rca == SB_SUCCESS ? answer(&ta, t[i]) : "";
+            sb_trajectory_destroy(&tb);
+            memset(&tb, SBH_FILL, sizeof(tb));
+            if (sb_trajectory_init_from_binary_file_in_memory(&tb, dbuf.p, dbuf.n) == SB_SUCCESS) {
+                (void)answer(&tb, t[i]);
+                sb_trajectory_destroy(&tb);
+            }
+            memset(&tb, SBH_FILL, sizeof(tb));
+            rcb = sb_trajectory_init_from_binary_file_in_memory(&tb, buf.p, buf.n);
+            if (rca != SB_SUCCESS || rcb != SB_SUCCESS) {
+                add(out, "reload-failed-" + std::to_string((int)rca) + "-" + std::to_string((int)rcb));
+                break;
+            }
             std::string B = answer(&tb, t[i]);
             add(out, A + "," + (A == B ? "=" : "!"));
         }
